@@ -384,7 +384,7 @@ application_call:
 			if (States::is_established(_state) && !_loginParameters._silent_disconnect)
 			{
 				do_state_change(States::st_session_terminated);
-				send(generate_logout(e.what()), true, 0, true); // so it won't increment
+				send(generate_logout(e.what())); // numbered like any other message: the peer counts it, and the next logon must not reuse its number
 				do_state_change(States::st_logoff_sent);
 			}
 			if (_loginParameters._reliable)
@@ -847,7 +847,7 @@ bool Session::heartbeat_service()
 			{
 				ostringstream ostr;
 				ostr << "Remote has ignored my test request. Aborting session...";
-				send(generate_logout(_loginParameters._silent_disconnect ? 0 : ostr.str().c_str()), true, 0, true); // so it won't increment
+				send(generate_logout(_loginParameters._silent_disconnect ? 0 : ostr.str().c_str())); // numbered like any other message
 				do_state_change(States::st_logoff_sent);
 				log(ostr.str(), Logger::Error);
 				try
